@@ -143,7 +143,7 @@ def coq_project_files():
         if rel.split(os.sep)[0] in ('pins', 'extract', 'audit'):
             continue
         for f in fs:
-            if f.endswith('.v') and not f.startswith('.'):
+            if f.endswith('.v') and not f.startswith('.') and not f.lower().startswith(('dbg', 'tmp', 'scratch')) and '_tmp' not in f:
                 files.append(os.path.normpath(os.path.join(rel, f)))
     return sorted(files)
 
@@ -162,8 +162,19 @@ def coq_makefile():
 def coq_make(targets, timeout=1500, jobs=16):
     """Full .vo build of the given targets (never -vos).  Returns (ok, output)."""
     coq_makefile()
-    with Lock('coq'):
-        rc, out, dt = sh('make -f Makefile.coq -j%d %s 2>&1' % (jobs, ' '.join(targets)), cwd=COQ, timeout=timeout)
+    for attempt in (0, 1):
+        with Lock('coq'):
+            rc, out, dt = sh('make -f Makefile.coq -j%d %s 2>&1' % (jobs, ' '.join(targets)), cwd=COQ, timeout=timeout)
+        if rc != 0 and 'No rule to make target' in out and attempt == 0:
+            # a file listed in _CoqProject vanished (scratch file of a concurrent session): regenerate
+            with Lock('coq'):
+                try:
+                    os.remove(os.path.join(COQ, '_CoqProject'))
+                except OSError:
+                    pass
+            coq_makefile()
+            continue
+        break
     return rc == 0, out
 
 
